@@ -31,20 +31,39 @@ Definition TB (adds : list Constraints.table) : Constraints.table :=
 PERIODS = [0, 1, 2, 100]
 
 
+def is_batch(h):
+    return h["tracker"] in ("batch", "batchvisual")
+
+
+def is_visual(h):
+    return h["tracker"] in ("visual", "batchvisual")
+
+
+def exact_ids(h):
+    return h["tracker"] in ("sort", "visual")
+
+
 # ------------------------------------------------------------------------------------------------
 # specs
 
 def parse_det(tok):
     f = tok.split(":")
-    return {"uid": int(f[0]), "xc": int(f[1]), "yc": int(f[2]), "angle": None if f[3] == "n" else int(f[3]),
-            "aspect": int(f[4]), "height": int(f[5]), "conf": int(f[6]),
-            "custom": None if f[7] == "n" else int(f[7])}
+    d = {"uid": int(f[0]), "xc": int(f[1]), "yc": int(f[2]), "angle": None if f[3] == "n" else int(f[3]),
+         "aspect": int(f[4]), "height": int(f[5]), "conf": int(f[6]),
+         "custom": None if f[7] == "n" else int(f[7])}
+    if len(f) >= 10:          # visual kinds: feature quality and feature vector (kept verbatim)
+        d["q"] = f[8]
+        d["feat"] = f[9]
+    return d
 
 
 def det_text(d):
-    return "%d:%d:%d:%s:%d:%d:%d:%s" % (d["uid"], d["xc"], d["yc"], "n" if d["angle"] is None else str(d["angle"]),
-                                       d["aspect"], d["height"], d["conf"],
-                                       "n" if d["custom"] is None else str(d["custom"]))
+    t = "%d:%d:%d:%s:%d:%d:%d:%s" % (d["uid"], d["xc"], d["yc"], "n" if d["angle"] is None else str(d["angle"]),
+                                    d["aspect"], d["height"], d["conf"],
+                                    "n" if d["custom"] is None else str(d["custom"]))
+    if "q" in d:
+        t += ":%s:%s" % (d["q"], d["feat"])
+    return t
 
 
 def box_key(d):
@@ -111,14 +130,18 @@ def parse_hist_line(line):
     return {"k": int(kv["k"]), "tracker": kv["tracker"], "shards": int(kv["shards"]), "vshards": int(kv["vshards"]),
             "history": int(kv["history"]), "max_idle": int(kv["max_idle"]),
             "metric": ("maha", None) if m == "maha" else ("iou", int(m.split(":")[1])),
-            "minconf": int(kv["minconf"]), "constraints": cons}
+            "minconf": int(kv["minconf"]), "constraints": cons,
+            "vopts": [(k, kv[k]) for k in ("vis", "votes", "minlen", "maxobs", "quse", "qcol") if k in kv]}
 
 
 def hist_line(h):
     cons = "-" if h["constraints"] is None else "|".join(",".join("%d:%d" % e for e in call) for call in h["constraints"])
     m = "maha" if h["metric"][0] == "maha" else "iou:%d" % h["metric"][1]
-    return "hist k=%d tracker=%s shards=%d vshards=%d history=%d max_idle=%d metric=%s minconf=%d constraints=%s" % (
+    t = "hist k=%d tracker=%s shards=%d vshards=%d history=%d max_idle=%d metric=%s minconf=%d constraints=%s" % (
         h["k"], h["tracker"], h["shards"], h["vshards"], h["history"], h["max_idle"], m, h["minconf"], cons)
+    for k, v in h.get("vopts", []):
+        t += " %s=%s" % (k, v)
+    return t
 
 
 def parse_specs(text):
@@ -197,7 +220,7 @@ def parse_results(text):
                 if not e:
                     continue
                 tid, w, d = e.split(",")
-                row[int(tid)] = (None if w == "n" else (w if w == "p" else int(w)), d if d == "p" else int(d))
+                row[int(tid)] = (None if w == "n" else (w if w in ("p", "v") else int(w)), d if d == "p" else int(d))
             step["tab"][f[1] if f[1] == "p" else int(f[1])] = row
         elif line.startswith("res "):
             f = line.split(" ", 2)
@@ -259,8 +282,11 @@ def run_impl(hists, timeout=900):
     return runs
 
 
-def gen_specs(seed, n, tier):
-    rc, out, err = vlib.harness_run("tracker", ["gen", "--seed", seed, "--n", n, "--tier", tier])
+def gen_specs(seed, n, tier, kinds="sort"):
+    args = ["gen", "--seed", seed, "--n", n, "--tier", tier]
+    if kinds != "sort":
+        args += ["--kinds", kinds]
+    rc, out, err = vlib.harness_run("tracker", args)
     return parse_specs(out)
 
 
@@ -317,7 +343,7 @@ def batch_effective(op):
 
 def coq_ops(h):
     out = []
-    batch = h["tracker"] == "batch"
+    batch = is_batch(h)
     for op in h["ops"]:
         k = op["kind"]
         if k in ("predict", "batch") and batch:
@@ -380,6 +406,9 @@ def build_case(h, run):
                         if tid not in pre:
                             problems.append("op %d: oracle row names unknown track %d" % (i, tid))
                         continue
+                    if is_visual(h):
+                        # "offered": the pair yields some metric (positional or visual); the value is irrelevant
+                        w = None if w is None else 0
                     ents.append("(%d, (%s, %s))" % (lu, coq_opt_z(w), q_lit(f32_bits_to_fraction(d2r))))
                 table.append("(%d, [%s])" % (d["uid"], "; ".join(ents)))
             # hints: which stored track (by its pre-call name) absorbed each detection, read off the store dump
@@ -403,7 +432,8 @@ def build_case(h, run):
     cfg = "{| max_idle := %d; hist_len := %d; shards := %d; thr := (%d)%%Z; table := TB %s |}" % (
         h["max_idle"], h["history"], h["shards"], thr_of(h), adds)
     ops = coq_ops(h)[:nsteps]
-    term = "run_case [%s] [%s] %s [%s]" % ("; ".join(table), "; ".join(hints), cfg, "; ".join(ops))
+    term = "%s [%s] [%s] %s [%s]" % ("run_case_given" if is_visual(h) else "run_case",
+                                     "; ".join(table), "; ".join(hints), cfg, "; ".join(ops))
     term_assign = "run_case_assign [%s] %s [%s]" % ("; ".join(table), cfg, "; ".join(ops))
     return term, {"names": names, "problems": problems, "assign_term": term_assign}
 
@@ -460,9 +490,10 @@ TRK_KEYS = ["id", "scene", "epoch", "len", "custom", "obs", "npred"]
 def compare(h, run, mval, names):
     """mval: parsed result of run_case.  Returns (list of difference strings, ties, ncompared)"""
     diffs = []
-    bij = Bij(exact=(h["tracker"] == "sort"))
+    bij = Bij(exact=exact_ids(h))
     ties = 0
     n = 0
+    rejected = []
     for i, st in enumerate(run["steps"]):
         if st["res"] is None or st["res"][0] in ("panic", "hang"):
             diffs.append("op %d (%s): the implementation panicked / hung" % (i, st["optext"][:40]))
@@ -473,6 +504,9 @@ def compare(h, run, mval, names):
         (mo, mt, mmain, mwst) = mval[i]
         if mt > 1:
             ties += 1
+        if is_visual(h) and mt == 0:
+            # the implementation's association did not pass the interface check of the model (given_solver)
+            rejected.append(i)
         kind, body = st["res"]
         mk = mo[0] if isinstance(mo, tuple) else mo
         margs = mo[1] if isinstance(mo, tuple) and len(mo) > 1 else None
@@ -536,6 +570,7 @@ def compare(h, run, mval, names):
             diffs.append("op %d: %s" % (i, bij.bad))
         if diffs:
             break
+    compare.last_rejected = rejected
     return diffs, ties, n
 
 
@@ -553,7 +588,7 @@ def correspondence(hists, runs, tag="trk"):
     res = [None] * len(hists)
     for k, (h, r) in enumerate(zip(hists, runs)):
         if r is None:
-            res[k] = {"diffs": ["no implementation run"], "ties": 0, "n": 0, "problems": []}
+            res[k] = {"diffs": ["no implementation run"], "ties": 0, "n": 0, "problems": [], "rejected": []}
             continue
         term, info = build_case(h, r)
         terms.append(term)
@@ -563,9 +598,10 @@ def correspondence(hists, runs, tag="trk"):
     vals = model_eval(terms, tag=tag, shard_size=n) if terms else []
     for k, v, info in zip(idx, vals, infos):
         diffs, ties, n = compare(hists[k], runs[k], v, info["names"])
+        rej = list(compare.last_rejected)
         if info["problems"] and not diffs:
             diffs = ["harness/driver could not name a stored track: " + info["problems"][0]]
-        res[k] = {"diffs": diffs, "ties": ties, "n": n, "problems": info["problems"]}
+        res[k] = {"diffs": diffs, "ties": ties, "n": n, "problems": info["problems"], "rejected": rej}
     return res
 
 
@@ -599,6 +635,11 @@ def base_run(chk, n_hist):
             pass
     t0 = time.time()
     hists = gen_specs(chk.seed, n_hist, chk.tier)
+    n_vis = 60 if chk.tier == "quick" else 400
+    vh = gen_specs(chk.seed, n_vis, chk.tier, kinds="visual")
+    for h in vh:
+        h["k"] += 100000          # distinct labels: the visual family
+    hists = hists + vh
     runs = run_impl(hists)
     t1 = time.time()
     model_ok = os.path.exists(os.path.join(vlib.COQ, "theories", "Model", "Tracker.vo"))
@@ -630,7 +671,7 @@ class Ledger:
 
     def __init__(self, h):
         self.h = h
-        self.batch = h["tracker"] == "batch"
+        self.batch = is_batch(h)
         self.epoch = {}            # scene -> epoch
         self.tracks = {}           # id -> {"scene", "dets": [uids], "last": epoch}
         self.det_track = {}        # uid -> id
@@ -835,7 +876,7 @@ def project(h, s):
             ops.append(dict(o))
         elif k == "batch":
             for sc, ds in o["scenes"]:
-                if sc == s and (ds or h["tracker"] != "batch"):
+                if sc == s and (ds or not is_batch(h)):
                     ops.append({"kind": "predict", "scene": s, "dets": ds})
     return clone(h, ops=ops)
 
@@ -849,8 +890,23 @@ def scene_outputs(h, run, s):
             ren[x] = len(ren) + 1
         return ren[x]
 
+    # box tokens are class representatives WITHIN a run (first detection of the run with that box); the interleaved run
+    # may contain the same box in another scene earlier, so tokens are re-based on the detections of scene s only
+    key_of = {}
+    first_in_scene = {}
+    for o in h["ops"]:
+        groups = [(o["scene"], o["dets"])] if o["kind"] == "predict" else (o["scenes"] if o["kind"] == "batch" else [])
+        for sc, ds in groups:
+            for d in ds:
+                key_of[d["uid"]] = box_key(d)
+                if sc == s:
+                    first_in_scene.setdefault(box_key(d), d["uid"])
+
+    def tok(u):
+        return first_in_scene.get(key_of.get(u), u)
+
     def rec(r):
-        return (rid(r["id"]), r["epoch"], r["scene"], r["len"], r["custom"], r["obs"])
+        return (rid(r["id"]), r["epoch"], r["scene"], r["len"], r["custom"], tok(r["obs"]))
     out = []
     for i, st in enumerate(run["steps"]):
         if i >= len(h["ops"]):
@@ -862,14 +918,14 @@ def scene_outputs(h, run, s):
             break
         k = o["kind"]
         if k == "predict" and o["scene"] == s:
-            if h["tracker"] == "batch" and not o["dets"]:
+            if is_batch(h) and not o["dets"]:
                 continue
             out.append(("records", [rec(r) for r in body]))
         elif k == "batch":
             for sc, rs in body:
                 if sc == s:
                     ds = dict(o["scenes"]).get(s, [])
-                    if h["tracker"] == "batch" and not ds:
+                    if is_batch(h) and not ds:
                         continue
                     out.append(("records", [rec(r) for r in rs]))
         elif k == "idle" and o["scene"] == s:
@@ -1216,6 +1272,12 @@ def generic_replay(chk, path, pid):
     hit = [m for (p, kk, m, _) in fl if key is None or kk == key]
     for m in hit[:5]:
         print("ORACLE:", m)
+    if key == "visual-association" and r is not None:
+        res = correspondence([h], [r], tag="trkreplay")[0]
+        hit = ["association rejected at op %d: %s" % (i, "; ".join(rejection_reasons(h, r, i)[:3])) for i in res.get("rejected", [])]
+        hit += res["diffs"][:1]
+        for m in hit:
+            print("MODEL:", m[:400])
     extra = rep.get("pair")
     if extra and not hit:
         hit = pair_replay(h, extra)
@@ -1228,7 +1290,7 @@ def pair_replay(h, extra):
     if kind == "period":
         a, b = with_period(h, extra["p1"]), with_period(h, extra["p2"])
         ra, rb = run_impl([a, b])
-        oa, ob = observable(a, ra, h["tracker"] == "sort"), observable(b, rb, h["tracker"] == "sort")
+        oa, ob = observable(a, ra, exact_ids(h)), observable(b, rb, exact_ids(h))
         for i, (x, y) in enumerate(zip(oa, ob)):
             if x != y:
                 print("periodicity %d vs %d differ at op %d: %s / %s" % (extra["p1"], extra["p2"], i, x, y))
@@ -1244,7 +1306,7 @@ def pair_replay(h, extra):
     if kind == "noconstraints":
         b = without_constraints(h)
         ra, rb = run_impl([h, b])
-        x, y = observable(h, ra, h["tracker"] == "sort"), observable(b, rb, h["tracker"] == "sort")
+        x, y = observable(h, ra, exact_ids(h)), observable(b, rb, exact_ids(h))
         if x != y:
             print("with / without the non-binding table differ")
             return [1]
@@ -1309,7 +1371,7 @@ def c20t_run(chk, pid="C20T", max_hist=200):
         if ra is None or rb is None or not tie_free(a, ra) or not tie_free(b, rb):
             continue
         compared += 1
-        ex = a["tracker"] == "sort"
+        ex = exact_ids(a)
         if observable(a, ra, ex) != observable(b, rb, ex):
             nfail.setdefault("tracker-nonbinding-" + kind, (k, a))
     for key, (k, a) in nfail.items():
@@ -1320,7 +1382,7 @@ def c20t_run(chk, pid="C20T", max_hist=200):
                 return False
             if constraint_facts(hh, ra)[0] != 0:
                 return False
-            ex = hh["tracker"] == "sort"
+            ex = hexact_ids(h)
             return observable(hh, ra, ex) != observable(bb, rb, ex)
         small = shrink_history(a, f) if f(a) else a
         msg = "a tracker with a constraints table that no considered pair violates behaves differently from one without constraints"
@@ -1376,7 +1438,7 @@ def ties_in_run(h, run):
     ep = {}
     prev_main = []
     ties = 0
-    batch = h["tracker"] == "batch"
+    batch = is_batch(h)
     for i, op in enumerate(h["ops"]):
         if i >= len(run["steps"]):
             break
@@ -1412,8 +1474,41 @@ def ties_in_run(h, run):
     return ties
 
 
+def visual_tie_prone(h, run):
+    """appearance-voting ties (equal accumulated feature weights) need bit-identical feature vectors: two detections of one
+    call with the same feature vector, or the same feature vector held by two different tracks of a scene"""
+    owner = {}
+    for i, o in enumerate(h["ops"]):
+        if i >= len(run["steps"]):
+            break
+        st = run["steps"][i]
+        kind, body = st["res"] if st["res"] else ("none", None)
+        if o["kind"] == "predict":
+            groups = [(o["scene"], o["dets"], body if kind == "records" else [])]
+        elif o["kind"] == "batch":
+            bd = dict(body) if kind == "batch" else {}
+            groups = [(sc, ds, bd.get(sc, [])) for sc, ds in o["scenes"]]
+        else:
+            continue
+        for sc, ds, recs in groups:
+            feats = [d.get("feat", "n") for d in ds if d.get("feat", "n") != "n"]
+            if len(set(feats)) < len(feats):
+                return True
+            for d, r in zip(ds, recs or []):
+                f = d.get("feat", "n")
+                if f == "n":
+                    continue
+                if owner.setdefault((sc, f), r["id"]) != r["id"]:
+                    return True
+    return False
+
+
 def tie_free(h, run):
-    return run is not None and ties_in_run(h, run) == 0
+    if run is None:
+        return False
+    if is_visual(h) and visual_tie_prone(h, run):
+        return False
+    return ties_in_run(h, run) == 0
 
 
 
@@ -1460,3 +1555,95 @@ def assign_link(data, max_hist=40):
         if diffs:
             bad.append((k, diffs[0]))
     return {"histories": len(sel), "operations_compared": ncalls, "disagreements": len(bad), "wall_s": round(time.time() - t0, 1)}, bad
+
+
+# ------------------------------------------------------------------------------------------------
+# the visual trackers through the model route (given_solver): evidence + findings
+
+def rejection_reasons(h, run, i):
+    """why the association of step i does not pass the interface check, by the letter of the properties"""
+    op = h["ops"][i]
+    st = run["steps"][i]
+    prev = run["steps"][i - 1]["main"] if i > 0 else []
+    info = {t["id"]: t for t in prev}
+    ep = {}
+    batch = is_batch(h)
+    for j, o in enumerate(h["ops"][:i]):
+        if o["kind"] == "predict" and (o["dets"] or not batch):
+            ep[o["scene"]] = ep.get(o["scene"], 0) + 1
+        elif o["kind"] == "batch":
+            for sc, ds in o["scenes"]:
+                if ds or not batch:
+                    ep[sc] = ep.get(sc, 0) + 1
+        elif o["kind"] == "skip":
+            ep[o["scene"]] = ep.get(o["scene"], 0) + o["n"]
+    kind, body = st["res"]
+    groups = [(op["scene"], op["dets"], body)] if op["kind"] == "predict" else \
+        [(s, ds, dict(body).get(s, [])) for s, ds in op["scenes"]]
+    out = []
+    for scene, dets, recs in groups:
+        e = ep.get(scene, 0) + 1
+        seen = {}
+        for d, r in zip(dets, recs or []):
+            t = info.get(r["id"])
+            if t is None:
+                continue
+            if r["id"] in seen:
+                out.append("detections %d and %d of one call were both attached to track %d" % (seen[r["id"]], d["uid"], r["id"]))
+            seen[r["id"]] = d["uid"]
+            if t["scene"] != scene:
+                out.append("detection %d of scene %d was attached to track %d of scene %d" % (d["uid"], scene, r["id"], t["scene"]))
+            elif e - t["epoch"] > h["max_idle"]:
+                out.append("detection %d was attached to track %d, idle for %d > max_idle %d epochs" % (d["uid"], r["id"], e - t["epoch"], h["max_idle"]))
+            else:
+                ent = st["tab"].get(d["uid"], {}).get(r["id"])
+                lim = applicable_limit(h, e - t["epoch"])
+                if ent is not None and ent[1] != "p" and lim is not None and f32_bits_to_fraction(ent[1]) > lim:
+                    out.append("detection %d was attached to track %d beyond the constraint limit (%.4f > %.4f at gap %d)" % (
+                        d["uid"], r["id"], float(f32_bits_to_fraction(ent[1])), float(lim), e - t["epoch"]))
+                elif ent is not None and ent[0] is None:
+                    out.append("detection %d was attached to track %d although the pair yields no metric" % (d["uid"], r["id"]))
+    return out or ["the association of the call is not a one-to-one choice among the offered (same scene, gap <= max_idle, constraint-admitted, metric-bearing) pairs"]
+
+
+def visual_report(chk, pid, data, found):
+    """evidence for the visual kinds (model replay with given_solver) + findings: rejected associations"""
+    hists, runs, corr = data["hists"], data["runs"], data["corr"]
+    idx = [k for k, h in enumerate(hists) if is_visual(h)]
+    kinds = Counter(hists[k]["tracker"] for k in idx)
+    nops = sum(corr[k]["n"] for k in idx if corr and corr[k])
+    dis = [k for k in idx if corr and corr[k] and corr[k]["diffs"]]
+    rej = [k for k in idx if corr and corr[k] and corr[k].get("rejected")]
+    cont = 0
+    nrec = 0
+    for k in idx:
+        r = runs[k]
+        if r is None:
+            continue
+        for st in r["steps"]:
+            if st["res"] and st["res"][0] == "records":
+                nrec += len(st["res"][1])
+                cont += sum(1 for x in st["res"][1] if x["len"] > 1)
+            elif st["res"] and st["res"][0] == "batch":
+                for _, rs in st["res"][1]:
+                    nrec += len(rs)
+                    cont += sum(1 for x in rs if x["len"] > 1)
+    chk.coverage["visual_model"] = {
+        "histories": len(idx), "by_kind": dict(kinds), "operations_compared": nops,
+        "records": nrec, "records_continuing_a_track": cont,
+        "model_vs_impl_disagreements": len(dis), "associations_rejected_by_interface_check": len(rej),
+        "route": "VisualSort / BatchVisualSort replayed in Model/Tracker.v by tstep_visual / batch_step_with prologue_batch_visual "
+                 "with given_solver fed the implementation's own association (read off the store dumps); records, lists and "
+                 "both stores compared after every op; ledger, paired-run and run-pair oracles are applied to these kinds too",
+    }
+    for k in rej[:2]:
+        h, r = hists[k], runs[k]
+        i = corr[k]["rejected"][0]
+        small = clone(h, ops=h["ops"][:i + 1])
+        why = rejection_reasons(h, r, i)
+        msg = "op %d (%s): %s" % (i, op_text(h["ops"][i])[:50], "; ".join(why[:3]))
+        chk.violation("%s:visual-association-rejected" % pid, msg,
+                      replay_obj(small, msg, {"oracle": "visual-association", "original_history": h["k"], "seed": chk.seed,
+                                              "implementation_output": [(s["optext"][:80], s["res"]) for s in r["steps"][:i + 1]][-3:]}))
+        found = True
+    return found
